@@ -51,6 +51,7 @@ type Contract struct {
 	Line     int
 	Uses     []string // lemma: names of earlier lemmas used as hypotheses
 	Witnesses []*Witness // existentially quantified ghost values of the postcondition
+	Hints    []*Clause  // lemma: terms mentioned so that axiom patterns can fire (no new facts)
 }
 
 // Witness names a ghost value: the prover supplies it as an expression over the function's locals,
@@ -63,7 +64,7 @@ type Witness struct {
 
 var clauseKW = map[string]bool{"func": true, "lib": true, "lemma": true, "props": true, "theory": true, "requires": true, "ensures": true, "preserves": true,
 	"modifies": true, "loop": true, "returns": true, "inline": true, "noinline": true, "pure": true, "maypanic": true, "trusted": true,
-	"results": true, "fresh": true, "uses": true, "end": true, "witness": true}
+	"results": true, "fresh": true, "uses": true, "end": true, "witness": true, "hint": true}
 
 var labelRe = regexp.MustCompile(`^\s*(\[[A-Za-z0-9_, ]+\])?\s*([A-Za-z_][A-Za-z0-9_]*)\s*:([^:=].*|$)`)
 var tagOnlyRe = regexp.MustCompile(`^\s*\[([A-Za-z0-9_, ]+)\]\s*(.*)$`)
@@ -206,6 +207,12 @@ func parseContractFile(path, pkgPath string) ([]*Contract, error) {
 				return nil, fmt.Errorf("%s:%d: %v", path, r.line, err)
 			}
 			cur.Witnesses = append(cur.Witnesses, &Witness{Name: head[:j], Sort: strings.TrimSpace(head[j:]), E: e, Src: r.text})
+		case "hint":
+			c, err := parseClause(r.text, path, r.line)
+			if err != nil {
+				return nil, err
+			}
+			cur.Hints = append(cur.Hints, c)
 		case "pure":
 			cur.Pure = true
 		case "maypanic":
